@@ -80,6 +80,10 @@ func (lh *WorkerLoop) Run(ctx context.Context) {
 
 		case msg := <-lh.MessagesChannel:
 			parsedMessage := interfaces.ToConsensusMessage(msg)
+			if parsedMessage == nil {
+				lh.logger.Info("LHFLOW LHMSG WORKERLOOP IGNORING message with unrecognized content")
+				continue
+			}
 			lh.logger.Debug("LHFLOW LHMSG WORKERLOOP RECEIVED %v from %v for H=%d V=%d", parsedMessage.MessageType(), parsedMessage.SenderMemberId(), parsedMessage.BlockHeight(), parsedMessage.View())
 			lh.filter.HandleConsensusRawMessage(msg)
 
